@@ -44,7 +44,8 @@ pub fn arity(op: &str) -> Option<usize> {
     Some(match op {
         "in0" | "in1" | "const" => 0,
         "union" | "chain" | "join" | "xsing" | "antijoin" | "notin" | "joinb" | "antijoinb" | "notinb" => 2,
-        "reduceb" => 1,
+        "kunion" | "joinlb" => 2,
+        "reduceb" | "kreduce" | "klimit" | "kenum" | "kfirst" => 1,
         "b0" | "b1" | "cyc" => 0,
         "sort" | "limit" | "count" | "max" | "min" | "first" | "last" | "tostream" | "defer" | "across" => 1,
         "map" | "filter" | "flatmap" | "filtermap" | "enumerate" | "scan" | "unique" | "kscan" | "fold" | "reduce"
@@ -95,6 +96,10 @@ fn mapf(code: &str, v: &V) -> V {
         "idx" => {
             let (i, x) = v.pair();
             V::p(x.clone(), i.clone())
+        }
+        "kidx" => {
+            let (k, iv) = v.pair();
+            V::p(k.clone(), V::I(iv.pair().1.int() * 100 + iv.pair().0.int()))
         }
         _ => panic!("map code {code}"),
     }
@@ -154,8 +159,8 @@ fn foldf(code: &str, acc: i64, x: i64) -> i64 {
 }
 fn redf(code: &str, acc: i64, x: i64) -> i64 {
     match code {
-        "rsum" => acc + x,
-        "rmax" => acc.max(x),
+        "rsum" | "rsumc" => acc + x,
+        "rmax" | "rmaxc" => acc.max(x),
         "rmin" => acc.min(x),
         "rlast" => x,
         "rpoly" => acc * 3 + x,
@@ -206,8 +211,50 @@ pub fn eval(t: &T, ins: &[Vec<i64>; 2]) -> Vec<V> {
             }
             out
         }
-        "union" | "chain" => kid(0).into_iter().chain(kid(1)).collect(),
-        "join" | "joinb" => {
+        "union" | "chain" | "kunion" => kid(0).into_iter().chain(kid(1)).collect(),
+        "kreduce" => {
+            // per key: reduce of that key's values in arrival order
+            let mut groups: BTreeMap<V, Vec<i64>> = BTreeMap::new();
+            for v in kid(0) {
+                groups.entry(v.pair().0.clone()).or_default().push(v.pair().1.int());
+            }
+            groups
+                .into_iter()
+                .map(|(k, vs)| V::p(k, V::I(vs.into_iter().reduce(|a, x| redf(&t.arg, a, x)).unwrap())))
+                .collect()
+        }
+        "klimit" => {
+            // per key: the first n values, everything kept in arrival order
+            let n: usize = t.arg.parse().unwrap();
+            let mut cnt: BTreeMap<V, usize> = BTreeMap::new();
+            kid(0)
+                .into_iter()
+                .filter(|v| {
+                    let c = cnt.entry(v.pair().0.clone()).or_insert(0);
+                    *c += 1;
+                    *c <= n
+                })
+                .collect()
+        }
+        "kenum" => {
+            // per key: index within the key's own subsequence
+            let mut cnt: BTreeMap<V, i64> = BTreeMap::new();
+            kid(0)
+                .into_iter()
+                .map(|v| {
+                    let c = cnt.entry(v.pair().0.clone()).or_insert(0);
+                    let i = *c;
+                    *c += 1;
+                    V::p(v.pair().0.clone(), V::p(V::I(i), v.pair().1.clone()))
+                })
+                .collect()
+        }
+        "kfirst" => {
+            // per key: the first value
+            let mut seen: HashSet<V> = HashSet::new();
+            kid(0).into_iter().filter(|v| seen.insert(v.pair().0.clone())).collect()
+        }
+        "join" | "joinb" | "joinlb" => {
             let (l, r) = (kid(0), kid(1));
             let mut out = vec![];
             for x in &l {
@@ -371,7 +418,7 @@ pub fn tick_stateless(t: &T) -> bool {
 pub fn canon(kind: &str, items: Vec<String>) -> Vec<String> {
     let mut v = items;
     match kind {
-        "sN" | "ksing" | "tN" => v.sort(),
+        "sN" | "ksing" | "tN" | "sKN" | "bN" => v.sort(),
         "sK" => v.sort_by(|a, b| key_of(a).cmp(key_of(b))), // stable
         _ => {}
     }
